@@ -40,6 +40,7 @@ pub struct WorkerArgs {
 }
 
 pub fn worker(a: &WorkerArgs) {
+    crate::c05::check_tables();
     let t0 = Instant::now();
     let mut out = WorkerOut::default();
     let mut fps: Vec<u64> = Vec::new();
